@@ -651,6 +651,8 @@ class VTerm:
                     cc = self.c + dc
                     if cc < self.cols:
                         under = row[cc] if self.personality == "wezterm" else None
+                        if under is not None and under[0] == "\x00img":
+                            under = under[3]  # keep the text content below a stack of images
                         row[cc] = ("\x00img", iid, (dc, dr), under)
                         self.touched.add((rr, cc))
             self.events.append(("iimg", iid, self.r, self.c, w, h))
